@@ -47,6 +47,9 @@ pub struct Config {
     /// kind of the injected read error: 0 ConnectionReset, 1 Interrupted, 2 TimedOut
     #[serde(default)]
     read_err_kind: u8,
+    /// C13: this many leading bytes of the stream are already in the read buffer at construction
+    #[serde(default)]
+    preload: usize,
 }
 
 #[derive(Serialize, Deserialize, Clone, Debug, PartialEq)]
@@ -498,11 +501,27 @@ erased!(FLen, LenPrefix, LenPrefix, |v: Vec<u8>| v, |v: Vec<u8>| Bytes::from(v),
 erased!(FLenTr, LenTrailer, LenTrailer::default(), |v: Vec<u8>| v, |v: Vec<u8>| Bytes::from(v), Bytes);
 
 fn make(codec: &Codec) -> Box<dyn ErasedFramed> {
+    make_with(codec, &[])
+}
+
+/// `pre`: bytes that are already in the read buffer when the Framed is put together
+/// (`FramedParts::with_read_buf`, as after a protocol upgrade).
+fn make_with(codec: &Codec, pre: &[u8]) -> Box<dyn ErasedFramed> {
+    use actix_codec::FramedParts;
+    macro_rules! mk {
+        ($c:expr) => {
+            if pre.is_empty() {
+                Box::pin(Framed::new(SimIo::default(), $c))
+            } else {
+                Box::pin(Framed::from_parts(FramedParts::with_read_buf(SimIo::default(), $c, BytesMut::from(pre))))
+            }
+        };
+    }
     match codec {
-        Codec::Lines => Box::new(FLines(Box::pin(Framed::new(SimIo::default(), LinesCodec::default())))),
-        Codec::Bytes => Box::new(FBytes(Box::pin(Framed::new(SimIo::default(), BytesCodec)))),
-        Codec::LenPrefix => Box::new(FLen(Box::pin(Framed::new(SimIo::default(), LenPrefix)))),
-        Codec::LenTrailer => Box::new(FLenTr(Box::pin(Framed::new(SimIo::default(), LenTrailer::default())))),
+        Codec::Lines => Box::new(FLines(mk!(LinesCodec::default()))),
+        Codec::Bytes => Box::new(FBytes(mk!(BytesCodec))),
+        Codec::LenPrefix => Box::new(FLen(mk!(LenPrefix))),
+        Codec::LenTrailer => Box::new(FLenTr(mk!(LenTrailer::default()))),
     }
 }
 
@@ -520,8 +539,12 @@ fn run_c13(cfg: &Config, ch: &mut Chooser<Action>, ctx: &mut RunCtx) -> Option<V
     // number of items that are complete once the first p bytes of the stream have been read
     let decodable = |p: usize| end_off.iter().filter(|e| **e <= p).count();
     let mut fed_at_err = 0usize;
-    let mut f = make(&cfg.codec);
-    let mut fed = 0usize;
+    let preload = cfg.preload.min(stream.len());
+    let mut f = make_with(&cfg.codec, &stream[..preload]);
+    if preload > 0 {
+        ctx.bump("probe.read_buffer_preloaded");
+    }
+    let mut fed = preload;
     let mut eof_fed = false;
     let mut err_fed = false;
     let mut task = TaskWake::new();
@@ -681,7 +704,9 @@ fn run_c13(cfg: &Config, ch: &mut Chooser<Action>, ctx: &mut RunCtx) -> Option<V
                         // the transport is drained: whatever is complete in the bytes read so far
                         // has been yielded (a frame kept back here is lost to a peer that waits)
                         let withheld = if cfg.codec == Codec::Bytes { bytes_got.len() < fed } else { got.len() < decodable(fed) };
-                        if withheld {
+                        // (bytes handed over in the read buffer are first looked at after the next
+                        // successful read: outside the statement, which speaks about reads)
+                        if withheld && preload == 0 {
                             return Some(Violation::new(
                                 "frame-withheld",
                                 format!("poll_next returned Pending after {fed} bytes were read although only {} of the {} items complete in them have been yielded", got.len(), decodable(fed)),
@@ -702,7 +727,7 @@ fn run_c13(cfg: &Config, ch: &mut Chooser<Action>, ctx: &mut RunCtx) -> Option<V
                             ctx.bump("probe.io_error_surfaced");
                             // order: frames whose bytes were read before the error come first
                             let late = if cfg.codec == Codec::Bytes { bytes_got.len() < fed_at_err } else { got.len() < decodable(fed_at_err) };
-                            if late {
+                            if late && preload == 0 {
                                 return Some(Violation::new(
                                     "io-error-overtook-frames",
                                     format!("the I/O error injected after {fed_at_err} bytes was yielded when only {} of the {} items complete in those bytes had been yielded", got.len(), decodable(fed_at_err)),
@@ -1099,6 +1124,7 @@ impl Engine for IoSim {
             w_poll: *rng.pick(&[2, 4, 8]),
             rebuild: rng.chance(1, 4),
             read_err_kind: rng.below(3) as u8,
+            preload: if rng.chance(1, 6) { rng.range(1, 5) as usize } else { 0 },
         }
     }
     fn max_actions(_: &str, cfg: &Config) -> usize {
@@ -1141,7 +1167,7 @@ impl Engine for IoSim {
     }
     fn required_probes(prop: &str, _tier: Tier) -> Vec<&'static str> {
         if prop == "C13" {
-            vec!["probe.pending_returned", "probe.end_reached", "probe.io_error_surfaced", "probe.frame_larger_than_hw", "probe.items_behind_decode_error", "probe.io_error_after_decode_error", "probe.eof_frame_from_empty_buffer", "probe.rebuilt_mid_stream"]
+            vec!["probe.pending_returned", "probe.end_reached", "probe.io_error_surfaced", "probe.frame_larger_than_hw", "probe.items_behind_decode_error", "probe.io_error_after_decode_error", "probe.eof_frame_from_empty_buffer", "probe.rebuilt_mid_stream", "probe.read_buffer_preloaded"]
         } else {
             vec!["probe.partial_progress", "probe.sink_pending", "probe.close_ok", "probe.write_zero_reported", "probe.ready_after_flush", "probe.interrupted_reported", "probe.more_than_16_writes_in_one_call", "probe.rebuilt_with_bytes_buffered", "probe.item_refused_with_bytes_buffered"]
         }
